@@ -126,6 +126,80 @@ def native_case(args) -> dict:
     return out
 
 
+def slow_consumer_case(args) -> dict:
+    """Many one-example shards, a consumer that is slower than the readers
+    (sleeps between examples), OS schedule: shard opens (inotify) for the
+    first k examples must stay within needed + cap."""
+    import time
+    name, iface, sh, par, k, repeat = args
+    root = core.fresh_dir("c14s")
+    out = {"bad": [], "cases": 0, "harness": None, "opens": None,
+           "args": list(args)}
+    try:
+        from sedpack.io import Dataset
+        dsfamily.build(root, name)
+        ds_ = Dataset(root)
+        oc = D.OpenCounter(root)
+        kw = dict(split="train", shuffle=sh, repeat=repeat)
+        if iface != "sync":
+            kw["file_parallelism"] = par
+
+        def go():
+            n = 0
+            if iface == "async":
+                import asyncio
+
+                async def run():
+                    nn = 0
+                    agen = ds_.as_numpy_iterator_async(**kw)
+                    async for _ in agen:
+                        nn += 1
+                        await asyncio.sleep(0.002)
+                        if nn >= k:
+                            break
+                    await agen.aclose()
+                    return nn
+
+                return asyncio.run(run())
+            fn = {"sync": ds_.as_numpy_iterator,
+                  "concurrent": ds_.as_numpy_iterator_concurrent,
+                  "rust": ds_.as_numpy_iterator_rust}[iface]
+            gen = fn(**kw)
+            for _ in gen:
+                n += 1
+                time.sleep(0.002)
+                if n >= k:
+                    break
+            opens_ = oc.read()
+            gen.close()
+            return n, opens_
+
+        res = D.with_alarm(120, go)
+        if isinstance(res, tuple):
+            n, opens = res
+        else:
+            n, opens = res, oc.read()
+        oc.close()
+        out["cases"] = 1
+        out["opens"] = opens
+        cap = k + 4 * (par + max(sh, 1)) + 8
+        if n != k:
+            out["bad"].append(("short", iface, f"{args}: got {n} of {k}"))
+        if opens > cap:
+            out["bad"].append(
+                ("read-ahead", iface,
+                 f"{name} {iface} shuffle={sh} file_parallelism={par} "
+                 f"repeat={repeat}, slow consumer: {opens} shard opens "
+                 f"while the first {k} examples (1 per shard) were "
+                 f"consumed (cap {cap})"))
+    except Exception as e:  # pylint: disable=broad-except
+        out["harness"] = f"{type(e).__name__}: {e} " + traceback.format_exc(
+        )[-400:]
+    finally:
+        shutil.rmtree(root, ignore_errors=True)
+    return out
+
+
 def _explore_unit(item):
     key, cfg = item
     return key, itertools_mc.explore_config(cfg)
@@ -221,6 +295,30 @@ def run(ctx):
         ctx.part("dataset level (OS schedule, shard opens counted with "
                  "inotify): take k from the repeating stream", cases=tot,
                  max_opens_per_interface=mx)
+        slow = []
+        for name in ("many120", "many120npz"):
+            for iface in ("sync", "concurrent", "async") + (
+                    ("rust",) if name == "many120" else ()):
+                for sh in (0, 5):
+                    for par in ((2, 4) if iface != "sync" else (1,)):
+                        for rep in (False, True):
+                            slow.append((name, iface, sh, par, 30, rep))
+        mo = {}
+        ns = 0
+        for r in ex.map(slow_consumer_case, slow):
+            if r["harness"]:
+                ctx.harness_error(f"{r['args']}: {r['harness']}")
+                continue
+            ns += r["cases"]
+            mo[r["args"][1]] = max(mo.get(r["args"][1], 0), r["opens"] or 0)
+            for sym, iface, msg in r["bad"]:
+                ctx.violation({"engine": "dataset", "symptom": sym,
+                               "iface": iface, "consumer": "slow"}, msg,
+                              {"kind": "slow", "args": r["args"]})
+        ctx.part("120 one-example shards, consumer sleeping 2 ms per "
+                 "example (OS schedule): opens for the first 30 examples",
+                 cases=ns, max_opens_per_interface=mo)
+        ctx.add(states=ns, transitions=ns, traces_validated_against_impl=ns)
         ctx.add(states=tot, transitions=tot,
                 traces_validated_against_impl=tot)
         dataset_mc.run_controlled(ctx, ex, TAGS, what="take")
@@ -256,6 +354,9 @@ def replay(case):
         return lazypool_mc.replay_case(case["cfg"], case["choices"])
     if kind == "controlled":
         return dataset_mc.replay(case)
+    if kind == "slow":
+        core.import_sedpack_quietly()
+        return [m for _, _, m in slow_consumer_case(tuple(case["args"]))["bad"]]
     if kind == "group":
         ms = []
         for cfg in case["members"]:
